@@ -71,7 +71,7 @@ def check_compact(prop, tier, seed):
             cov["transitions"] += r["states"]
             cov["mc_runs"].append(dict(module="KBSeq.tla + Scanner.tla", config=title, distinct_states=r["distinct"], states_generated=r["states"], invariants=MC_INV[prop]))
             log("MC KBSeq %s: %d distinct states" % (title, r["distinct"]))
-        n = 200 if quick else 3000
+        n = 200 if quick else 1000   # (3000 histories x 4 engines with full sweeps exhausted memory: the driver was killed)
         gens = [("1 key, multi-version histories, faulty compaction after 4 requests",
                  dict(SEQ_CONSTS, Keys={1}, MaxOps=7, ExpKinds={"cur"}, CompactKinds={"cur", "cur-1", "cur-2"}, CompactAfter=4, DelFaultKinds=faults)),
                 ("2 keys, mixed expectations, faulty compactions",
@@ -148,7 +148,7 @@ def check_compact(prop, tier, seed):
         for p, tr, rp, eng in procs:
             out, _ = p.communicate()
             if p.returncode != 0 or not os.path.exists(rp):
-                raise Undecided("free-running driver failed (rc=%s): %s" % (p.returncode, (out or "")[-1500:]))
+                raise Undecided("free-running driver failed (rc=%s): %s\n%s" % (p.returncode, (out or "")[-1500:], crash_tail(work)))
             alltraces.append(tr)
             r = json.load(open(rp)); r["engine"] = eng
             fr.append(r)
